@@ -353,6 +353,28 @@ def run_pipeline(spec):
             clock_holder.setdefault("clocks", []).append(c)
             return Timer(func=c)
 
+        if spec.get("draw_budget"):
+            import numpy as _np
+
+            from sim.rng import SimGenerator
+
+            budget = int(spec["draw_budget"])
+
+            def seeded(seed):
+                # the same stream as np.random.default_rng(seed), plus a cap on draws that turns a hang into a recorded failure
+                return SimGenerator(mode="record", bitgen=_np.random.PCG64(seed), max_draws=budget)
+
+            P.set(prun, "instantiate_and_seed_RNG", seeded)
+        if spec.get("cores"):
+            # the number of available cores is an input of the schedule too: whatever the code asks the OS, it sees `cores`
+            import multiprocessing as _mp
+
+            ncore = int(spec["cores"])
+            if hasattr(os, "sched_getaffinity"):
+                P.set(os, "sched_getaffinity", lambda pid=0: set(range(ncore)))
+            P.set(os, "cpu_count", lambda: ncore)
+            P.set(_mp, "cpu_count", lambda: ncore)
+            hist["stats"]["cores_simulated"] = 1
         P.set(prun, "Timer", make_timer)
         P.set(prun, "ProcessPoolExecutor", ex)
         P.set(prun, "as_completed", ex.as_completed)
